@@ -596,6 +596,53 @@ fn derived_noise(h: &History) -> Option<Violation> {
     None
 }
 
+/// long-count histories: more than 2^16 conversions and edits on one instance
+pub fn long_counts(ctx: &Ctx, want: &str) -> Report {
+    if ctx.tier == Tier::Small {
+        return Report::new();
+    }
+    par_shards(ctx, 3, |j| {
+        let mut rep = Report::new();
+        let mut r = Rng::derive(ctx.seed, "quant.long", j as u64);
+        let mut ops = mask_to_ops(if j == 0 { 0x0FFF } else { rand_mask(&mut r) });
+        let mut v = r.uniform(0.0, 10.0);
+        match j {
+            0 | 1 => {
+                for k in 0..70_000u32 {
+                    v = (v + r.uniform(-1.0, 1.0) * 0.02).clamp(0.0, 10.0);
+                    ops.push(Op::Convert(v as f32));
+                    if k % 1000 == 999 {
+                        let pc = r.below(12) as u8;
+                        ops.push(Op::Forbid(vec![pc]));
+                        ops.push(Op::Convert(v as f32));
+                        ops.push(Op::Allow(vec![pc]));
+                    }
+                }
+            }
+            _ => {
+                // 2^16 +- 1 edits between two conversions of the same input, the last one forbidding the held note
+                for total in [65_535usize, 65_536, 65_537] {
+                    let pc = ((v.max(0.0) * 12.0).floor() as u64 % 12) as u8;
+                    let other = (pc + 5) % 12;
+                    ops.push(Op::Allow(vec![pc]));
+                    ops.push(Op::Convert(v as f32));
+                    for k in 0..total - 1 {
+                        ops.push(if k % 2 == 0 { Op::Allow(vec![other]) } else { Op::Forbid(vec![other]) });
+                    }
+                    ops.push(Op::Forbid(vec![pc]));
+                    ops.push(Op::Convert(v as f32));
+                    ops.push(Op::Allow(vec![pc]));
+                    v = r.uniform(0.0, 10.0);
+                }
+            }
+        }
+        let h = History { ops };
+        run_and_record(&h, want, &mut rep, false);
+        rep.count("quant.long_count_histories", 1);
+        rep
+    })
+}
+
 pub fn random(ctx: &Ctx, want: &str) -> Report {
     let n_hist = ctx.budget(10, 40_000, 4_000_000) as usize;
     let shards = if ctx.tier == Tier::Small { 1 } else { 64 };
@@ -943,6 +990,8 @@ pub fn run(ctx: &Ctx, prop: &str) -> Report {
     stage("quant.sequences", sequences(ctx, prop), &mut rep, t);
     let t = std::time::Instant::now();
     stage("quant.random_histories", random(ctx, prop), &mut rep, t);
+    let t = std::time::Instant::now();
+    stage("quant.long_counts", long_counts(ctx, prop), &mut rep, t);
     if ctx.tier != Tier::Small {
         for o in 0..=10 {
             rep.floor(&format!("quant.c07.cached_note_forbidden_same_input.octave{}", o), if o == 10 { 7 } else { 100 });
